@@ -25,6 +25,7 @@ type envVar struct {
 type customCaps struct {
 	Bool      bool     `json:"bool"`
 	BoolFalse bool     `json:"boolfalse"` // has IsBoolFlag(), which answers false
+	MapType   bool     `json:"maptype"`   // the value is a map type used by value (not hashable, not comparable): multi-valued
 	Multi     bool     `json:"multi"`
 	IsDefault bool     `json:"isdefault"`
 	FailOn    []string `json:"failon"` // tokens Set rejects
@@ -145,7 +146,33 @@ func (c *customBD) IsDefault() bool   { return true }
 func (c *customMD) IsDefault() bool   { return true }
 func (c *customBMD) IsDefault() bool  { return true }
 
+// customMap is a user-supplied multi-valued type whose dynamic type is a map (used by value)
+type customMap map[string]bool
+
+var customMapLog *[]string
+
+func (m customMap) Set(s string) error {
+	if s == "bad" || s == "bad2" || s == "bad3" || s == "bad4" {
+		*customMapLog = append(*customMapLog, "S!:"+s)
+		return fmt.Errorf("custom value rejects %q", s)
+	}
+	*customMapLog = append(*customMapLog, "S:"+s)
+	m[s] = true
+	return nil
+}
+func (m customMap) String() string { return "custom" }
+func (m customMap) Clear() {
+	*customMapLog = append(*customMapLog, "C")
+	for k := range m {
+		delete(m, k)
+	}
+}
+
 func mkCustom(caps customCaps, log *[]string) flag.Value {
+	if caps.MapType {
+		customMapLog = log
+		return customMap{}
+	}
 	b := customBase{log: log, failOn: map[string]bool{}}
 	for _, f := range caps.FailOn {
 		b.failOn[f] = true
